@@ -10,6 +10,7 @@ inference-tools code and states assertions through `h`.  The same unit runs
   numerically.  A solver `sat` is reported as a violation only if the replay fails the same
   assertion.
 """
+import types
 import hashlib
 import inspect
 import math
@@ -83,6 +84,7 @@ class H:
         self.stubs = []
         self.assumptions_txt = []
         self._patches = []
+        self._auto_done = set()
         self._names = {}
         self.uf_calls = {}
         self.allowed_exc = ()
@@ -110,6 +112,13 @@ class H:
         """replace names in `module` (symbolic mode only unless both=True)"""
         if not (self.sym or both):
             return
+        if self.sym and isinstance(module, types.ModuleType) and id(module) not in self._auto_done:
+            self._auto_done.add(id(module))
+            from . import stubs as _st
+            auto = _st.autopatch(self, module)
+            auto = {k: v for k, v in auto.items() if k not in names}
+            if auto:
+                self.patch(module, **auto)
         for k, v in names.items():
             missing = object()
             old = module.__dict__.get(k, missing) if hasattr(module, "__dict__") else getattr(module, k, missing)
